@@ -235,6 +235,8 @@ def mutate(r, kind, doc, force=None, prefer=None, at=None):
         # number and no number for a bool -- kept to what both formalisms treat as different types.
         if scalar:
             swap = ["x"] if isinstance(old, (bool, int, float)) else [7, 7.5] if isinstance(old, str) else [7, "x"]
+            if isinstance(old, int) and not isinstance(old, bool):
+                swap = [old + 0.5, "x", -old - 0.5]     # (a fractional number is no integer in either formalism)
             pads = [("retype-pad", " " + old), ("retype-pad", old + " "), ("retype-pad", "\t" + old + "\n")] \
                 if isinstance(old, str) else []
             # (a string padded with white space is another string: where the schema constrains the string -- tags,
